@@ -191,6 +191,13 @@ def run(prop, tier, replay=None):
             reg_viol, reg_requests = RG.method_dispatch_violations(prop, scratch, harness, seed)
             for key, v in sorted(reg_viol.items(), key=str):
                 print("VIOLATION property=%s replay=%s  (%s; +%d similar)" % (prop, C.write_replay(prop, "DispatchMethod-%s-%s" % (key[1], key[2]), v), v["what"], v["more"]))
+        if prop == "C01" and not replay:
+            # ... and after a re-registration with CHANGED rules (RegRev.tla): a binding of the revision that is gone must not route
+            from . import registry_chk as RG2
+            rv, _rs = RG2.rev_violations(prop, tier, scratch, harness, seed)
+            for key, v in sorted(rv.items(), key=str):
+                reg_viol[("rev",) + tuple(str(k) for k in key)] = v
+                print("VIOLATION property=%s replay=%s  (%s; +%d similar)" % (prop, C.write_replay(prop, "RegRev-%d" % (abs(hash(str(key))) % 100000), v), v["what"][:400], v["more"]))
         ws_sessions = 0
         if prop == "C01" and not replay:
             # "routing sets no other field", on a stream: the path variable of a WebSocket binding sets its field on the first
